@@ -314,7 +314,7 @@ func zzExpect(a *zzAbs) *zzView {
 		v.b("Will()!=nil", a.hasWill)
 		if a.hasWill {
 			v.n("WillDelayInterval", zzPU(a.willProps, 0x18))
-			wf := (a.connFlags>>3)&3<<1 | (a.connFlags>>5)&1
+			wf := (a.connFlags>>3)&3<<1 | (a.connFlags>>5)&1 | byte(zzB2U(a.willDup))<<3
 			zzExpPublish(v, "Will.", wf, a.willTopic, 0, a.willProps, a.willPayload)
 		}
 	case 2:
